@@ -774,3 +774,68 @@ pub fn shell_case(n: usize, radius: f64, rot: f64, jitter: f64, periodic: bool, 
     repair_distinct(&mut c);
     c
 }
+
+/// Density contrast ('clump' inputs, family "C"): a few generators spread over the box and a
+/// dense clump of `m` generators inside a ball that is small compared to its distance from
+/// them. The big cells next to the clump walk over thousands of candidates that leave them
+/// untouched before a farther genuine neighbour turns up; the cells on the surface of the clump
+/// have one huge face towards the void. 2D or 3D, periodic or not.
+pub fn clump_strategy(min_m: usize, max_m: usize) -> BoxedStrategy<Case> {
+    (
+        (min_m..=max_m, 3usize..=14, any::<u64>(), prop_oneof![Just(3u8), Just(3u8), Just(2u8)], any::<bool>()),
+        (1u32..=3, [0.15f64..0.85, 0.15f64..0.85, 0.15f64..0.85], 0u32..4, [1.0f64..2.0, 1.0f64..2.0, 1.0f64..2.0], -2i32..=2),
+    )
+        .prop_map(|((m, far, seed, dim, periodic), (rho_exp, centre, anchor_kind, mant, e))| clump_case(m, far, seed, dim, periodic, 10f64.powi(-(rho_exp as i32)), centre, anchor_kind, mant, e))
+        .boxed()
+}
+
+#[allow(clippy::too_many_arguments)]
+pub fn clump_case(m: usize, far: usize, seed: u64, dim: u8, periodic: bool, rho: f64, centre: [f64; 3], anchor_kind: u32, mant: [f64; 3], e: i32) -> Case {
+    let mut c = Case { dim, periodic, family: "C".into(), ..Case::default() };
+    let d = dim as usize;
+    for k in 0..d {
+        c.width[k] = if anchor_kind == 0 { 1. } else { mant[k] * 2f64.powi(e) };
+        c.anchor[k] = match anchor_kind {
+            0 | 1 => 0.,
+            2 => -0.5 * c.width[k],
+            _ => 37.25 * c.width[k],
+        };
+    }
+    let mut x = seed | 1;
+    let mut next = || {
+        x ^= x << 13;
+        x ^= x >> 7;
+        x ^= x << 17;
+        (x >> 11) as f64 / (1u64 << 53) as f64
+    };
+    let to_box = |c: &Case, t: [f64; 3]| -> [f64; 3] {
+        let mut g = [0.; 3];
+        for k in 0..d {
+            g[k] = (c.anchor[k] + t[k].clamp(0., 1.) * c.width[k]).max(c.anchor[k]).min(c.anchor[k] + c.width[k]);
+        }
+        g
+    };
+    let mut gens = vec![];
+    // the far generators, kept away from the clump by at least 3 clump radii (a bounded number
+    // of attempts: whatever was drawn last is taken)
+    let mut tries = 0;
+    while gens.len() < far {
+        let t = [next(), next(), next()];
+        let dist = (0..d).map(|k| (t[k] - centre[k]) * (t[k] - centre[k])).sum::<f64>().sqrt();
+        tries += 1;
+        if dist > 3. * rho + 0.02 || tries > 200 {
+            gens.push(to_box(&c, t));
+        }
+    }
+    // the clump: uniform in a ball (disk) of radius rho (in units of the box)
+    while gens.len() < far + m {
+        let u = [2. * next() - 1., 2. * next() - 1., 2. * next() - 1.];
+        let r2: f64 = (0..d).map(|k| u[k] * u[k]).sum();
+        if r2 <= 1. {
+            gens.push(to_box(&c, [centre[0] + rho * u[0], centre[1] + rho * u[1], centre[2] + rho * u[2]]));
+        }
+    }
+    c.gens = gens;
+    repair_distinct(&mut c);
+    c
+}
